@@ -22,7 +22,13 @@ Lemma diff_PB : forall fl da ka db kb,
   if tree_eqb (PB da ka) (PB db kb) then [] else
   if (is_nil ka && is_nil kb) || (negb fl && negb (da =? db)) then [mod_change (PB da ka) (PB db kb)]
   else commons fl kb ka ++ removes ka kb ++ adds ka kb.
-Proof. reflexivity. Qed.
+Proof.
+  intros fl da ka db kb. cbn [diff].
+  destruct (tree_eqb (PB da ka) (PB db kb)); [reflexivity|].
+  destruct ((is_nil ka && is_nil kb) || (negb fl && negb (da =? db))); [reflexivity|].
+  f_equal. induction ka as [|[n ca] r IH]; [reflexivity|].
+  cbn [commons]. destruct (get n kb); rewrite IH; reflexivity.
+Qed.
 
 Fixpoint compat_all (kb l : list (name * tree)) : bool :=
   match l with
@@ -38,7 +44,13 @@ Lemma compat_PB : forall da ka db kb,
   compat (PB da ka) (PB db kb) =
   if tree_eqb (PB da ka) (PB db kb) then true else
   if is_nil ka && is_nil kb then true else (da =? db) && compat_all kb ka.
-Proof. reflexivity. Qed.
+Proof.
+  intros da ka db kb. cbn [compat].
+  destruct (tree_eqb (PB da ka) (PB db kb)); [reflexivity|].
+  destruct (is_nil ka && is_nil kb); [reflexivity|].
+  f_equal. induction ka as [|[n ca] r IH]; [reflexivity|].
+  cbn [compat_all]. destruct (get n kb); rewrite IH; reflexivity.
+Qed.
 
 (** ---------- well-formed dag-pb trees ---------- *)
 Inductive wf : tree -> Prop :=
@@ -229,7 +241,7 @@ Proof.
   cbn [filter fst get]. destruct (bytes_eqb n m) eqn:E.
   - apply bytes_eqb_eq in E. subst. destruct (f m) eqn:Fm; cbn [get].
     + rewrite bytes_eqb_refl. reflexivity.
-    + rewrite IH, Fm. reflexivity.
+    + rewrite IH. rewrite ?Fm. reflexivity.
   - destruct (f n); cbn [get]; rewrite ?E; exact IH.
 Qed.
 
@@ -368,13 +380,12 @@ Proof.
   destruct (wf_is_pb b Wb) as (db & kb & ->). cbn [tdata] in Hd. subst db.
   destruct (tree_eqb (PB d ka) (PB d kb)) eqn:E.
   - rewrite diff_PB, E. apply tree_eqb_eq in E. rewrite E. reflexivity.
-  - destruct (diff_cases false _ _ E) as [Hm|(da & ka' & db & kb' & Ea & Eb & Hdd & Hdiff & _)].
+  - rewrite diff_PB, E, Z.eqb_refl. cbn [negb andb]. rewrite orb_false_r.
+    destruct (is_nil ka && is_nil kb) eqn:N.
     + (* a Mod at the root is impossible: same Data, not both link-less *)
-      exfalso. rewrite diff_PB, E, Z.eqb_refl in Hm. cbn [negb andb orb] in Hm.
-      rewrite orb_false_r in Hm.
-      destruct ka; destruct kb; cbn [is_nil andb] in Hm; try discriminate Hm.
+      exfalso. destruct ka; destruct kb; cbn [is_nil andb] in N; try discriminate N.
       rewrite tree_eqb_refl in E. discriminate E.
-    + injection Ea as <- <-. injection Eb as <- <-. rewrite Hdiff.
+    + 
       apply PB_apply_diff; try assumption.
       intros n ca cb Ga Gb Ec.
       destruct (diff_cases false ca cb Ec) as [Hm|(da & ka' & db & kb' & Ea & Eb & Hdd & _ & Hdeep)];
